@@ -4,6 +4,7 @@
 import MocVerif.Lemmas.ST
 import MocVerif.Lemmas.Merge2D
 import MocVerif.Lemmas.FlatNormal
+import MocVerif.Lemmas.Regroup
 
 namespace Moc.C10
 
@@ -125,6 +126,23 @@ theorem flat_idempotent (a : FlatST) (ha : Merge2D.VF Canon 0 none a) :
     constructor
     · exact fun h => h.1
     · intro h; exact ⟨h, fun ⟨e, he, _⟩ => by cases he⟩
+
+/-- **From the flat form back to `RangeMOC2` elements** (`time_space_iter`, what the store and the command-line tool
+    do after the flat algebra): consecutive entries of equal coverage are grouped; for every valid flat coverage the
+    result is a VALID space-time MOC (canonical non-empty parts, elements in time order) covering the same pairs. -/
+theorem time_space_iter_sem (g : FlatST) (hv : Merge2D.VF Canon 0 none g) :
+    validSTB (Merge2D.regroup g) = true ∧ ∀ t s, memST t s (Merge2D.regroup g) ↔ Merge2D.memFlat t s g :=
+  Merge2D.regroup_spec g hv
+
+/-- Hence the whole chain used for `moc op inter | union | minus` on ST files and by the store: flat algebra, then
+    regrouping, returns a valid ST-MOC with the point-wise semantics. -/
+theorem st_algebra_chain (op : Merge2D.Op) (a b : FlatST) (ha : Merge2D.InOk 0 a) (hb : Merge2D.InOk 0 b) :
+    validSTB (Merge2D.regroup (Merge2D.merge2 op a b)) = true ∧
+    ∀ t s, memST t s (Merge2D.regroup (Merge2D.merge2 op a b)) ↔
+      op.sem (Merge2D.memFlat t s a) (Merge2D.memFlat t s b) := by
+  have m := Merge2D.merge2_spec op a b ha hb
+  have r := Merge2D.regroup_spec _ m.1
+  exact ⟨r.1, fun t s => by rw [r.2 t s, m.2 t s]⟩
 
 example : Merge2D.InOk 0 [((0, 5), [(0, 2)]), ((5, 10), [(4, 6)])] := by
   simp [Merge2D.InOk, Canon, CanonFrom]
